@@ -306,6 +306,8 @@ def check(spec, ctx):
             raise res.exc
         if isinstance(res.exc, (IOError, OSError)):
             raise Reject(str(res.exc)[:200])
+        if gc.refused_outside_box(res.exc, spec):
+            raise Reject("start structure with coordinates beyond its box")
         raise crash("gen_coords:crash", res.exc)
     # final table: every residue inside the box
     box = np.array(res.engine.boxsize, dtype=float)
